@@ -27,6 +27,8 @@ type C14Config struct {
 	OutExists bool `json:"out_exists,omitempty"`
 	// InPlace: -o names the (single) input file itself
 	InPlace bool `json:"in_place,omitempty"`
+	// Fifo: the input files are named pipes instead of regular files (same bytes, same names)
+	Fifo bool `json:"fifo,omitempty"`
 	// SelNames: the selector mentions something besides $ ($file, a global of the program)
 	SelNames bool `json:"sel_names,omitempty"`
 	Missing  int      `json:"missing"`        // index of a file argument that does not exist (-1: none)
@@ -82,6 +84,7 @@ func (c *C14Config) runCLI(progFile bool, stdin bool, out string, prog string, s
 		files["out.json"] = []byte(c14OldOut)
 	}
 	var in []byte
+	fifos := map[string][]byte{}
 	if stdin {
 		in = c.data(0)
 	} else {
@@ -92,13 +95,15 @@ func (c *C14Config) runCLI(progFile bool, stdin bool, out string, prog string, s
 				// not created
 			case i == c.Dir:
 				files[name+"/.keep"] = nil
+			case c.Fifo && !c.InPlace:
+				fifos[name] = c.data(i)
 			default:
 				files[name] = c.data(i)
 			}
 			args = append(args, name)
 		}
 	}
-	res, err := run.CLI(run.CLIOpts{Args: args, Stdin: in, Files: files, KeepDir: out == "FILE"})
+	res, err := run.CLI(run.CLIOpts{Args: args, Stdin: in, Files: files, Fifos: fifos, KeepDir: out == "FILE"})
 	if err != nil || res.TimedOut {
 		if res != nil {
 			res.Cleanup()
@@ -260,13 +265,31 @@ func genC14(t *rapid.T) (*C14Config, []string) {
 	c := &C14Config{Missing: -1, Dir: -1}
 	var labels []string
 	// program and inputs
-	switch rapid.IntRange(0, 5).Draw(t, "source") {
+	switch rapid.IntRange(0, 6).Draw(t, "source") {
+	case 6:
+		// selectors that find nothing in several values (and files) of a run, and a pattern rule
+		// that assigns to $: every such root is a null of its own, as BEGINFILE { $ = E } gives
+		c.Prog = ast.BS(rapid.SampledFrom([]string{
+			"{ print $ }\n$ == null { missing++\n$ = \"none\" }\nEND { print \"missing\", missing }",
+			"{ print $\n$ = [$, \"seen\"]\nprint $ }",
+			"$ == null { $ = {filled: true} }\n{ print $ }",
+			"{ n++\nif ($ == null) { $ = n }\nprint n, $ }",
+		}).Draw(t, "nullprog"))
+		for k, n := 0, rapid.IntRange(1, 2).Draw(t, "nnullfiles"); k < n; k++ {
+			var docs []string
+			for j, m := 0, rapid.IntRange(2, 4).Draw(t, "nnulldocs"); j < m; j++ {
+				docs = append(docs, rapid.SampledFrom([]string{`{"id":1}`, `{"id":2,"tags":null}`, `{"id":3,"tags":[1]}`, `{"tags":"t"}`, `{"id":4}`, `{"tags":"100% of %s and %d"}`}).Draw(t, "nulldoc"))
+			}
+			c.Files = append(c.Files, DFile{Name: "f", Docs: docs})
+		}
+		c.Sels = [][]string{{"$.tags"}, {"$.nosuch"}, {"$.tags", "$.nosuch"}, {"$.nosuch", "$.tags"}}[rapid.IntRange(0, 3).Draw(t, "nullsel")]
+		labels = append(labels, "selectors-that-find-nothing-several-times")
 	case 5:
 		// degenerate program texts: empty, blank, comment only, empty rules
 		c.Prog = ast.BS(rapid.SampledFrom([]string{"", "", " ", "\n", "\n\n", "# only a comment", "# c\n", "\t\n# c\n\n", "BEGIN { }", "{ }", "END { }", "{ }\n", "$", "1"}).Draw(t, "degenerate"))
 		n := rapid.IntRange(1, 3).Draw(t, "ndegfiles")
 		for k := 0; k < n; k++ {
-			c.Files = append(c.Files, DFile{Name: "f", Docs: []string{rapid.SampledFrom([]string{`[1,2]`, `{"a":1}`, `"s"`, `[]`, `{"a":{"b":[3]}}`}).Draw(t, "degdoc")}})
+			c.Files = append(c.Files, DFile{Name: "f", Docs: []string{rapid.SampledFrom([]string{`[1,2]`, `{"a":1}`, `"s"`, `[]`, `{"a":{"b":[3]}}`, `{"50%":"%s %d %v %!"}`, `["%", "%%", "100%"]`}).Draw(t, "degdoc")}})
 		}
 		labels = append(labels, "degenerate-program")
 	case 0, 1:
@@ -378,6 +401,10 @@ func genC14(t *rapid.T) (*C14Config, []string) {
 	if !c.Stdin && !c.InPlace && c.Missing < 0 && c.Dir < 0 && rapid.IntRange(0, 7).Draw(t, "dupfile") == 0 {
 		c.Files = append(c.Files, c.Files[rapid.IntRange(0, len(c.Files)-1).Draw(t, "dupwhich")])
 		labels = append(labels, "same-file-twice")
+	} else if !c.Stdin && !c.InPlace && rapid.IntRange(0, 3).Draw(t, "fifo") == 0 {
+		// the inputs are named pipes (a FIFO has no size to stat and cannot be re-read)
+		c.Fifo = true
+		labels = append(labels, "inputs-are-named-pipes")
 	}
 	feat := 0
 	if c.ProgFile {
@@ -429,7 +456,7 @@ func TestC14(t *testing.T) {
 	excl.ArrayAlias = rec.KnownActive("KF-array-alias", false)
 	c14ExclSelectorScope = rec.KnownActive("KF-selector-scope", true)
 	rec.ReplayTier()
-	check(rec, "config-random", scale(500, 50000), func(rt *rapid.T) {
+	check(rec, "config-random", scale(800, 50000), func(rt *rapid.T) {
 		c, labels := genC14(rt)
 		before := c14Excluded
 		msg := c14Check(c)
